@@ -38,8 +38,28 @@ type sym struct {
 	t    int // index into times; 0 = zero event time
 }
 
+// rows: the second column is drawn from a family of values that are different but collide under
+// weak hashing / sloppy equality (NULL, 0, false, 1, true, 1ns, +0.0, "", one-element tuples and
+// structs), so that a wrapper pairing retractions by anything weaker than value equality is caught.
+var rowValues = []octosql.Value{
+	octosql.NewNull(),
+	octosql.NewInt(0),
+	octosql.NewBoolean(false),
+	octosql.NewInt(1),
+	octosql.NewBoolean(true),
+	octosql.NewDuration(1),
+	octosql.NewFloat(0),
+	octosql.NewString(""),
+	octosql.NewTuple([]octosql.Value{octosql.NewInt(1)}),
+	octosql.NewTuple([]octosql.Value{octosql.NewInt(2)}),
+	octosql.NewStruct([]octosql.Value{octosql.NewInt(1)}),
+	octosql.NewStruct([]octosql.Value{octosql.NewInt(2)}),
+	octosql.NewList([]octosql.Value{}),
+	octosql.NewList([]octosql.Value{octosql.NewNull()}),
+}
+
 func (s sym) event() nodeh.Event {
-	return nodeh.Rec([]octosql.Value{octosql.NewString(string(rune('a' + s.row))), octosql.NewInt(int64(s.row))}, s.retr, ts(s.t))
+	return nodeh.Rec([]octosql.Value{octosql.NewString("s"), rowValues[s.row%len(rowValues)]}, s.retr, ts(s.t))
 }
 
 // validHistory: retractions only of rows currently present, both in the whole history and in
@@ -284,17 +304,33 @@ func Run(c *core.Ctx) core.FinishOpts {
 }
 
 func randomScript(rng *rand.Rand, i int) script {
-	nTimes := 4
+	nTimes := 4 + rng.Intn(4)
 	n := 3 + rng.Intn(12)
+	nRows := 2 + rng.Intn(len(rowValues)-1)
+	wmEvery := 10 // one event in wmEvery is a watermark
+	if i%8 == 0 {
+		// burst: many records buffered between few watermarks
+		n = 66 + rng.Intn(120)
+		wmEvery = 60
+		nRows = 2 + rng.Intn(3)
+	}
 	var evs []nodeh.Event
 	present := map[int][]int{} // row -> list of insert times currently present
 	wm := 0                    // index of last emitted watermark time (0 = none)
-	for iter := 0; len(evs) < n && iter < 300; iter++ {
-		switch r := rng.Intn(10); {
+	for iter := 0; len(evs) < n && iter < 3000; iter++ {
+		r := rng.Intn(wmEvery)
+		r2 := rng.Intn(10)
+		switch {
 		case r == 0 && wm < nTimes:
-			wm += 1 + rng.Intn(nTimes-wm)
+			if wmEvery > 10 {
+				wm++
+			} else {
+				wm += 1 + rng.Intn(nTimes-wm)
+			}
 			evs = append(evs, nodeh.WM(ts(wm)))
-		case r <= 3:
+		case r == 0:
+			continue
+		case r2 <= 3:
 			// retraction of a present row with event time >= its insert's and > wm
 			rows := []int{}
 			for k, v := range present {
@@ -316,7 +352,7 @@ func randomScript(rng *rand.Rand, i int) script {
 			if len(rows) > 1 {
 				// pick by rng among sorted rows
 				sorted := []int{}
-				for x := 0; x < 3; x++ {
+				for x := 0; x < nRows; x++ {
 					if len(present[x]) > 0 {
 						sorted = append(sorted, x)
 					}
@@ -342,7 +378,7 @@ func randomScript(rng *rand.Rand, i int) script {
 			present[row] = append(present[row][:k], present[row][k+1:]...)
 			evs = append(evs, sym{row, true, t}.event())
 		default:
-			row := rng.Intn(3)
+			row := rng.Intn(nRows)
 			var t int
 			if wm == 0 && rng.Intn(4) == 0 {
 				t = 0
